@@ -338,6 +338,16 @@ class Skip(Exception):
     pass
 
 
+class DerivationMismatch(Exception):
+    """In a pristine process the call that produced a derived input did not
+    produce it (it raised, or returned another kind of object): that call's
+    outcome depends on the history."""
+
+    def __init__(self, slot, op_index, rec):
+        super().__init__(f'slot {slot} from op {op_index}')
+        self.slot, self.op_index, self.rec = slot, op_index, rec
+
+
 REG = ('pixreg', 'pixcomp', 'skyreg', 'skycomp')
 PIXREG = ('pixreg', 'pixcomp')
 SKYREG = ('skyreg', 'skycomp')
@@ -385,8 +395,7 @@ class Exec:
         op = self.plan['ops'][prod['op_index']]
         out = self.run_op(op, forced=prod['resolved'], store_as=i)
         if 'obj' not in self.pool[i]:
-            raise RuntimeError(f'derivation of slot {i} did not reproduce: '
-                               f'{out}')
+            raise DerivationMismatch(i, prod['op_index'], out)
 
     def setup_disk(self):
         shutil.rmtree(self.root, ignore_errors=True)
@@ -1382,8 +1391,14 @@ def reference_eval(arg):
     ex.derivations = {int(k): v for k, v in derivations.items()}
     ex.setup_disk()
     try:
-        rec = ex.run_op(plan['ops'][j], forced=resolved,
-                        want_canon=arg[4].get('want_canon', False))
+        try:
+            rec = ex.run_op(plan['ops'][j], forced=resolved,
+                            want_canon=arg[4].get('want_canon', False))
+        except DerivationMismatch as exc:
+            rec = {'derivation_mismatch': {
+                'slot': exc.slot, 'op_index': exc.op_index,
+                'pristine_outcome': (exc.rec or {}).get('outcome'),
+                'desc': (exc.rec or {}).get('desc')}}
     finally:
         ex.teardown()
     return rec
@@ -1549,6 +1564,7 @@ def worker_post(plan, res, ctx, fork_call, tier_cfg):
     n = len(events)
     frac = tier_cfg.get('ref_fraction', 0.5)
     res['stats']['i2_refs'] = 0
+    seen_dm = set()
     for e in events:
         if e.get('skip'):
             continue
@@ -1562,6 +1578,30 @@ def worker_post(plan, res, ctx, fork_call, tier_cfg):
                         (plan, res['derivations'], j, e['resolved'], rctx),
                         120)
         res['stats']['i2_refs'] += 1
+        dm = ref.get('derivation_mismatch')
+        if dm:
+            # the producer of one of this call's inputs behaves differently
+            # in a pristine process: report it against the producer
+            pe = events[dm['op_index']] if dm['op_index'] < len(events) \
+                else {}
+            key = ('dm', dm['op_index'])
+            if key in seen_dm:
+                continue
+            seen_dm.add(key)
+            v = {'oracle': 'I2-history', 'step': dm['op_index'],
+                 'op': pe.get('op', ''), 'cls': '', 'desc': pe.get('desc', ''),
+                 'fault': pe.get('fault'),
+                 'detail': (f'{pe.get("desc")}: after the history this call '
+                            f'returned an object (stored as pool slot '
+                            f'{dm["slot"]}, outcome {pe.get("outcome")}), '
+                            f'but evaluated first in a pristine process its '
+                            f'outcome is {dm["pristine_outcome"]}')[:700]}
+            from sim.findings import match_known
+            k = match_known(ctx.get('findings', []),
+                            dict(v, property=PROPERTY))
+            (res['known_hits'] if k else res['violations']).append(
+                dict(v, id=k) if k else v)
+            continue
         if ref.get('skip') or ref['digest'] != e['digest']:
             # fetch both canonical forms for the report
             rctx2 = dict(rctx, want_canon=True)
